@@ -520,8 +520,8 @@ func genView(t *rapid.T) ViewCase {
 
 var viewSpec = pbt.Spec[ViewCase]{
 	Property: "C16", Name: "view",
-	Rule: "real matcher (regexp with 0-5 capture sites: named/unnamed, optional non-participating, nested; or dissect with arbitrary-text token names, skip tokens, multi-byte delimiters) x 1-3 lines whose captured texts come from a hostile alphabet (all control characters, quote, backslash, slash, DEL, non-ASCII, invalid UTF-8, numeric spellings incl. leading zeros/signs/exponents/30 digits, true/false/null spellings, JSON-injection fragments, empty) x key in {. # .# #.} x each line evaluated 1..64 times through extractor.New with 1..4 workers. Oracle: own RFC 8259 recogniser and encoding/json both accept one object and agree; members = groups (names from the generated matcher, texts from the real match indices), each a string equal to the captured text (invalid UTF-8 modulo U+FFFD), or a number of equal exact decimal value, or a boolean equal to the ASCII-folded text; every evaluation of one match gives one text. Non-trivial: the line matched and (>=2 named groups shown and >=2 evaluations, or a captured text that needs escaping or is a non-canonical numeric spelling, or a group name that needs escaping)",
-	Budget: pbt.Budget{Quick: 120000, Thorough: 3000000},
+	Rule:   "real matcher (regexp with 0-5 capture sites: named/unnamed, optional non-participating, nested; or dissect with arbitrary-text token names, skip tokens, multi-byte delimiters) x 1-3 lines whose captured texts come from a hostile alphabet (all control characters, quote, backslash, slash, DEL, non-ASCII, invalid UTF-8, numeric spellings incl. leading zeros/signs/exponents/30 digits, true/false/null spellings, JSON-injection fragments, empty) x key in {. # .# #.} x each line evaluated 1..64 times through extractor.New with 1..4 workers. Oracle: own RFC 8259 recogniser and encoding/json both accept one object and agree; members = groups (names from the generated matcher, texts from the real match indices), each a string equal to the captured text (invalid UTF-8 modulo U+FFFD), or a number of equal exact decimal value, or a boolean equal to the ASCII-folded text; every evaluation of one match gives one text. Non-trivial: the line matched and (>=2 named groups shown and >=2 evaluations, or a captured text that needs escaping or is a non-canonical numeric spelling, or a group name that needs escaping)",
+	Budget: pbt.Budget{Quick: 64000, Thorough: 640000},
 	Gen:    genView, Check: checkViewCase, Classify: classifyView,
 }
 
@@ -625,13 +625,13 @@ func classifyWriter(c WriterCase) (bool, []string) {
 			}
 		})
 	}
-	l.Add(true, fmt.Sprintf("members=%d", min(len(c.Ops), 6)))
+	l.Add(true, fmt.Sprintf("members=%d", min(len(c.Ops), 9)))
 	return nt, l
 }
 
 func genWriter(t *rapid.T) WriterCase {
 	c := WriterCase{Obs: pbt.NewObs()}
-	n := rapid.IntRange(0, 5).Draw(t, "ops")
+	n := rapid.SampledFrom([]int{0, 1, 1, 2, 2, 3, 3, 4, 5, 6, 7, 8}).Draw(t, "ops")
 	if rapid.IntRange(0, 3).Draw(t, "hinted") == 0 {
 		c.Hint = rapid.IntRange(1, 300).Draw(t, "hint")
 	}
@@ -659,8 +659,8 @@ func genWriter(t *rapid.T) WriterCase {
 
 var writerSpec = pbt.Spec[WriterCase]{
 	Property: "C16", Name: "writer",
-	Rule: "minijson.JsonObjectBuilder driven directly: 0-5 writes (WriteInferred / WriteString / WriteInt) with arbitrary-text member names (quotes, backslashes, control characters, non-ASCII, invalid UTF-8, empty) and hostile values (same alphabet as view). Oracle: both decoders accept one object; every write with a non-empty text is present exactly once and nothing else is; value is a string equal to the text, a number of equal exact value or a boolean of equal ASCII-folded spelling; building twice gives one text. Non-trivial: some name or value needs escaping, or a value is a non-canonical numeric spelling",
-	Budget: pbt.Budget{Quick: 400000, Thorough: 8000000},
+	Rule:   "minijson.JsonObjectBuilder driven directly: 0-8 writes (WriteInferred / WriteString / WriteInt) with arbitrary-text member names (quotes, backslashes, control characters, non-ASCII, invalid UTF-8, empty) and hostile values (same alphabet as view). Oracle: both decoders accept one object; every write with a non-empty text is present exactly once and nothing else is; value is a string equal to the text, a number of equal exact value or a boolean of equal ASCII-folded spelling; building twice gives one text. Non-trivial: some name or value needs escaping, or a value is a non-canonical numeric spelling",
+	Budget: pbt.Budget{Quick: 96000, Thorough: 1000000},
 	Gen:    genWriter, Check: checkWriter, Classify: classifyWriter,
 }
 
